@@ -330,7 +330,7 @@ func TestC06Prune(t *testing.T) {
 }
 
 // ---------------------------------------------------------------------------------------
-// command level: gotree prune with tips as arguments, -f tip file (one name per line, comma-separated on one line, or one long line in which a drawn name straddles byte 4096 / 8192 / 65536), -c compared tree, -r
+// command level: gotree prune with tips as arguments, -f tip file (one name per line, comma-separated on one line, one long line in which a drawn name straddles byte 4096 / 8192 / 65536, or one line of exactly 4096 / 8192 / 65536 bytes without end of line), -c compared tree, -r
 
 type CliCase struct {
 	Case
@@ -377,6 +377,19 @@ func (c CliCase) tipFile() string {
 		}
 		b.WriteString(target + ",zzpadlast\n")
 		return b.String()
+	}
+	if c.Layout == "exact" {
+		// one line without end of line whose length is exactly Boundary bytes (names, then names
+		// that are in no tree)
+		text := strings.Join(c.Names, ",")
+		for i := 0; len(text) < c.Boundary; i++ {
+			pad := fmt.Sprintf(",zzpad%d", i)
+			if rest := c.Boundary - len(text); rest < len(pad)+3 {
+				pad = "," + strings.Repeat("_", rest-1)
+			}
+			text += pad
+		}
+		return text
 	}
 	text := ""
 	for _, n := range c.Names {
@@ -440,7 +453,11 @@ func checkCli(c CliCase) error {
 	case "args":
 		args = append(args, c.Names...)
 	case "file":
-		args = append(args, "-f", cli.Write(dir, "tips.txt", cli.AuxLayout("tips.txt", c.tipFile())))
+		tf := c.tipFile()
+		if c.Layout != "exact" {
+			tf = cli.AuxLayout("tips.txt", tf)
+		}
+		args = append(args, "-f", cli.Write(dir, "tips.txt", tf))
 	case "comp":
 		// the compared tree holds the tips that are NOT named (plus a foreign one): the command
 		// removes the tips of the input tree that are absent from the compared tree
@@ -566,7 +583,7 @@ func trim(s string) string {
 func TestC06Cli(t *testing.T) {
 	h.Run(t, h.Spec[CliCase]{
 		Property: "C06", Name: "cli", Quick: 2400, Thorough: 48000,
-		Rule: "the same trees and removal sets through `gotree prune`: tips as arguments, -f tip file (one name per line, comma-separated on one line, or one long line in which a drawn name straddles byte 4096 / 8192 / 65536), -c compared tree (tips absent from it are removed), --random k --seed s (the number of tips removed / kept and the induced subtree on whatever remains), each with and without -r, the input stream on stdin, in a file, in a gzip file or as a Nexus document (--format nexus, the compared tree too); half of the inputs are streams of 2-3 trees with different tip sets, each of which must be pruned on its own; every printed tree is compared with the induced subtree of the reference model; non-trivial = >= 1 tip removed and >= 1 multifurcation or rooted tree",
+		Rule: "the same trees and removal sets through `gotree prune`: tips as arguments, -f tip file (one name per line, comma-separated on one line, one long line in which a drawn name straddles byte 4096 / 8192 / 65536, or one line of exactly 4096 / 8192 / 65536 bytes without end of line), -c compared tree (tips absent from it are removed), --random k --seed s (the number of tips removed / kept and the induced subtree on whatever remains), each with and without -r, the input stream on stdin, in a file, in a gzip file or as a Nexus document (--format nexus, the compared tree too); half of the inputs are streams of 2-3 trees with different tip sets, each of which must be pruned on its own; every printed tree is compared with the induced subtree of the reference model; non-trivial = >= 1 tip removed and >= 1 multifurcation or rooted tree",
 		Gen: func(t *rapid.T, thorough bool) CliCase {
 			c := CliCase{Case: genCase(t, false), Mode: rapid.SampledFrom([]string{"args", "file", "comp", "random"}).Draw(t, "mode")}
 			if c.Mode == "args" && len(c.Names) == 0 {
@@ -574,8 +591,8 @@ func TestC06Cli(t *testing.T) {
 			}
 			c.Reroot = 0
 			if c.Mode == "file" {
-				c.Layout = rapid.SampledFrom([]string{"lines", "lines", "commas", "long"}).Draw(t, "layout")
-				if c.Layout == "long" {
+				c.Layout = rapid.SampledFrom([]string{"lines", "lines", "commas", "long", "exact"}).Draw(t, "layout")
+				if c.Layout == "long" || c.Layout == "exact" {
 					c.Boundary = rapid.SampledFrom([]int{4096, 4096, 8192, 65536}).Draw(t, "boundary")
 					c.Straddle = rapid.IntRange(0, 1000).Draw(t, "straddle")
 				}
